@@ -462,22 +462,4 @@ mod verif_kani {
         }
         kani::cover!(a == b && b == c);
     }
-
-    /// Big integer vs float: equality must be exact (no rounding of the integer), so that `==` stays transitive.
-    /// BOUNDED: big integers within the i64 range only (num-bigint digit loops unwound).
-    #[kani::proof]
-    #[kani::unwind(4)]
-    fn c09_num_eq_big_float_exact_bounded() {
-        use num_bigint::BigInt;
-        use crate::values::types::bigint::StarlarkBigInt;
-        let i: i64 = kani::any();
-        kani::assume(i < i32::MIN as i64 || i > i32::MAX as i64);
-        let f: f64 = kani::any();
-        let big = StarlarkBigInt::unchecked_new(BigInt::from(i));
-        let a = NumRef::Int(StarlarkIntRef::Big(&big));
-        let b = NumRef::Float(StarlarkFloat(f));
-        let exact = f >= -9223372036854775808.0 && f < 9223372036854775808.0 && (f as i64) == i && (f as i64) as f64 == f;
-        assert!((a == b) == exact);
-        kani::cover!(a == b);
-    }
 }
